@@ -97,7 +97,7 @@ fn run_stream<H: HX>(a: &Args, sink: &mut Sink) -> serde_json::Value {
         "c11" => random_stream::<H>(sink, &mut rng, &both, &weights_with(&[("push_increase", 300), ("push_decrease", 300)]), n, l),
         "c12" => random_stream::<H>(sink, &mut rng, &both, &weights_with(&[("get_mut", 100), ("peek_mut", 100), ("iter_mut", 60), ("get", 80), ("push_increase", 100), ("push_decrease", 100), ("change_priority_by", 100)]), n, l),
         "c14" => random_stream::<H>(sink, &mut rng, &both, &weights_with(&[("eq", 200), ("clone", 150)]), n, l),
-        "c15" => random_stream::<H>(sink, &mut rng, &both, &weights_with(&[("serde_rt", 150), ("deser", 150), ("deser_unit", 25), ("deser_bad", 150), ("ser_fail", 60)]), n, l),
+        "c15" => random_stream::<H>(sink, &mut rng, &both, &weights_with(&[("serde_rt", 150), ("deser", 150), ("deser_unit", 25), ("deser_bad", 150), ("ser_fail", 60), ("deser_hint", 150)]), n, l),
         "c16" => random_stream::<H>(sink, &mut rng, &both, &weights_with(&[("drain", 150), ("clear", 80)]), n, l),
         "c17_oom" => { extra = oom_stream::<H>(sink, &mut rng, &both); }
         "c17" => random_stream::<H>(sink, &mut rng, &both, &weights_with(&[("capacity", 400)]), n, l),
